@@ -25,7 +25,7 @@ TIERS = {
 }
 RULE = ('per run: x random rank 1..4; y in {1+z^2, 2+z/2, 1.5+z+z^2/2} with z of rank 1..3 scaled to max|z|=1 (so y>=1); order 2..5; '
         'mode sizes 1..10; API in {x/y, scalar/y, elementwise_divide plain / preconditioner c / with starting tensor, x/scalar}; eps '
-        'fixed by the API (1e-12) or 10^-k, k in 4..11; global torch PRNG seeded per run; primary SVD failures on 25%% of runs; '
+        'fixed by the API (1e-12) or 10^-k, k in 4..11; global torch PRNG seeded per run; primary SVD failures on 25%% of runs (at seeded call indices, or at seeded fractions of the measured number of SVD calls so that late calls fail too); '
         'distinct by (api, order, divisor form, eps decade, scalar kind, fault kind, singleton flag)')
 ASSUMPTIONS = ['single-threaded BLAS', 'oracle constant C=10: ||q*y-x|| <= 10*eps*||x|| + 2000*u*||x||',
                'divisors are bounded away from zero by construction (y >= 1)']
@@ -63,6 +63,8 @@ def gen_case(rng):
     if r < 0.2 and api != 'scalar':
         pts = sorted(set(rng.randint(0, 60) for _ in range(rng.randint(1, 4))))
         p['plan'] = {'P': pts, 'Q': [], 'all': False, 'kind': 'subset'}
+        if rng.random() < 0.5:
+            p['plan'] = {'P': [], 'frac': sorted(rng.choice([0.0, 0.05, 0.3, 0.5, 0.8, 0.95, 0.999]) for _ in range(rng.randint(1, 3))), 'Q': [], 'all': False, 'kind': 'fraction'}
     elif r < 0.25 and api != 'scalar':
         p['plan'] = {'P': [], 'Q': [], 'all': True, 'kind': 'all'}
     else:
@@ -134,6 +136,11 @@ def exec_case(p, res):
     res['keys'].append(fam)
     desc = {'case': p}
     api = p['api']
+    if p['plan'] and p['plan'].get('frac') is not None:
+        def _count():
+            seams.seed_global(p['tseed'])
+            return call(p, x, y, start)
+        p = dict(p, plan=svdfault.resolve_fractions(p['plan'], _count))
     seams.seed_global(p['tseed'])
     q, exc, f = svdfault.run_with_plan(lambda: call(p, x, y, start), p['plan'] or {})
     svdfault.branch_stats(f, stats)
